@@ -5,7 +5,7 @@ import random
 
 import z3
 
-from harness.common import Ctx, byte_obligation, io_cases, mi, read_scenario
+from harness.common import Ctx, byte_obligation, fault_finish, fault_mode, io_cases, mi, read_scenario
 from oracles.mem import SymMem, SymOpaque
 from oracles import vhdx as spec
 from symx import core, files, layouts, loader, replay
@@ -50,6 +50,9 @@ def read_task(prop, cfg, tier, seed):
     m = load(real_cache=bool(cfg.get("prime")))
     ctx = Ctx(prop, "vhdx.read", cfg, tier, seed, engine_kw=dict(max_decisions=cfg.get("max_decisions", 600)))
     rng = random.Random(seed)
+    fault = bool(cfg.get("fault"))
+    if fault:
+        fault_mode(ctx)
     touched = (max_count + spb - 1) // spb + 1
 
     def body(E, ctx):
@@ -77,8 +80,9 @@ def read_task(prop, cfg, tier, seed):
         for k in range(touched):
             b = b0 + k
             e = files.word_at("img", bat_off + 8 * (b + b // cr), 8, "le")
-            E.assume(spec.valid_payload_state(e % 8, has_parent))
-            if has_parent:
+            if not fault:
+                E.assume(spec.valid_payload_state(e % 8, has_parent))
+            if has_parent and not fault:
                 # a partially present block has a present sector-bitmap block
                 sb = files.word_at("img", bat_off + 8 * spec.bitmap_index(b, cr), 8, "le")
                 E.assume(core.sym_or(e % 8 != spec.PARTIALLY_PRESENT, sb % 8 == 6))
@@ -124,6 +128,8 @@ def read_task(prop, cfg, tier, seed):
             res = obj.read_sectors(sector, count)
         else:
             res = obj._read(sector * ss, count * ss)
+        if fault:
+            return fault_finish(ctx, E, res, count * ss, block_size)
         sv = spec.guest_byte(sector * ss + j, bat_off, block_size, ss, mem, par)
         bad = byte_obligation(res, j, explen, sv, maxlen=count * ss if cfg.get("tail") else None)
         if cfg.get("io"):
